@@ -4,6 +4,12 @@
 // Contracts for package hdkeychain, checked by /verif/cmd/govc (comment-only file; see /verif/DESIGN.md, C14).
 package hdkeychain
 
+// VerifWF is a specification function (build tag verif only): the representation invariant of an extended key, for
+// contracts of other packages that cannot name its unexported fields.  Same text as the macro wf(k) below.
+func (k *ExtendedKey) VerifWF() bool {
+	return k != nil && (!k.isPrivate || len(k.key) == 32) && (k.isPrivate || len(k.key) == 33) && len(k.chainCode) == 32 && len(k.parentFP) == 4 && len(k.version) == 4
+}
+
 // H4 (serialisation helper): result = dst ++ 0^(max(0,size-len(src))) ++ src
 //@ func paddedAppend
 //@   props C14 C19
@@ -38,9 +44,11 @@ package hdkeychain
 //@   props C14 C04 C19
 //@   requires wf(k)
 //@   modifies k, gmap("bigval"), gmap("hdata")
+//@   ensures wf(k)
 //@   ensures old(k.depth) == 255 ==> err == ErrDeriveBeyondMaxDepth
 //@   ensures old(k.depth) != 255 && !old(k.isPrivate) && i >= HardenedKeyStart ==> err == ErrDeriveHardFromPublic
 //@   ensures err != nil ==> result == nil
+//@   ensures err == nil ==> fresh(result) && fresh(result.key) && fresh(result.chainCode) && fresh(result.parentFP)
 //@   ensures err == nil ==> result != nil && result.isPrivate == old(k.isPrivate) && mathint(result.depth) == mathint(old(k.depth)) + 1 && result.childNum == i
 //@   ensures err == nil ==> len(result.chainCode) == 32 && len(result.parentFP) == 4 && len(result.version) == 4
 //@   ensures err == nil && !result.isPrivate ==> len(result.key) == 33
@@ -82,3 +90,9 @@ package hdkeychain
 //@   props C14 C19
 //@   requires k != nil && len(k.version) == 4 && len(k.parentFP) == 4 && len(k.chainCode) == 32 && len(k.key) <= 33 && len(k.pubKey) <= 33
 //@   modifies k
+
+// wiping a key: only the key object and its own byte slices change
+//@ func (*ExtendedKey).Zero
+//@   trusted
+//@   requires k != nil
+//@   modifies k, k.key, k.pubKey, k.chainCode, k.parentFP
